@@ -296,6 +296,28 @@ impl Parts {
     }
 }
 
+/// a writer that takes at most `0` octets per call / a reader that gives three
+pub static SHORT_WRITE_REFUSED: std::sync::atomic::AtomicU64 = std::sync::atomic::AtomicU64::new(0);
+pub struct Pieces(pub usize, pub Vec<u8>);
+impl std::io::Write for Pieces {
+    fn write(&mut self, buf: &[u8]) -> std::io::Result<usize> {
+        let n = buf.len().min(self.0);
+        self.1.extend_from_slice(&buf[..n]);
+        Ok(n)
+    }
+    fn flush(&mut self) -> std::io::Result<()> { Ok(()) }
+}
+pub struct Dribble<'a>(pub &'a [u8]);
+impl std::io::Read for Dribble<'_> {
+    fn read(&mut self, buf: &mut [u8]) -> std::io::Result<usize> {
+        let k: usize = std::env::var("VH_DRIB").ok().and_then(|x| x.parse().ok()).unwrap_or(3);
+        let n = buf.len().min(k).min(self.0.len());
+        buf[..n].copy_from_slice(&self.0[..n]);
+        self.0 = &self.0[n..];
+        Ok(n)
+    }
+}
+
 pub enum Msg {
     Child(ChildRequest),
     Parent(ParentResponse),
@@ -307,17 +329,48 @@ pub enum Msg {
 
 impl Msg {
     pub fn to_xml(&self) -> Vec<u8> {
-        match self {
+        let whole = match self {
             Msg::Child(m) => m.to_xml_vec(),
             Msg::Parent(m) => m.to_xml_vec(),
             Msg::Publisher(m) => m.to_xml_vec(),
             Msg::Repo(m) => m.to_xml_vec(),
             Msg::Prov(m) => m.to_xml_bytes().to_vec(),
             Msg::Publ(m) => m.to_xml_bytes().to_vec(),
-        }
+        };
+        // the same document through a writer that takes five octets per call (a socket, a pipe); when the two differ the odd one
+        // out is handed on, so that whoever reads it notices
+        let mut w = Pieces(5, Vec::new());
+        let ok = match self {
+            Msg::Child(m) => m.write_xml(&mut w).is_ok(),
+            Msg::Parent(m) => m.write_xml(&mut w).is_ok(),
+            Msg::Publisher(m) => m.write_xml(&mut w).is_ok(),
+            Msg::Repo(m) => m.write_xml(&mut w).is_ok(),
+            Msg::Prov(m) => m.write_xml(&mut w).is_ok(),
+            Msg::Publ(m) => m.write_xml(&mut w).is_ok(),
+        };
+        // A refusal is the writer's to give (observed: every message with BASE64 content is refused with WriteZero by such a sink -
+        // base64's EncoderWriter answers Ok(0) while it drains its buffer and is driven with write_all; DESIGN 8.5); what must not
+        // happen is a document that claims to be written and is not the document.
+        if !ok { SHORT_WRITE_REFUSED.fetch_add(1, std::sync::atomic::Ordering::SeqCst); return whole; }
+        if w.1 != whole { return w.1; }
+        whole
     }
     /// parse `xml` with the parser of the same family; Ok(equal to self?)
     pub fn reparse(&self, xml: &[u8]) -> Result<bool, String> {
+        // ... once more through a reader that delivers three octets at a time behind a seven-octet buffer
+        let piecewise = {
+            let cap: usize = std::env::var("VH_CAP").ok().and_then(|x| x.parse().ok()).unwrap_or(7);
+            let rd = || std::io::BufReader::with_capacity(cap, Dribble(xml));
+            match self {
+                Msg::Child(m) => ChildRequest::parse(rd()).map(|x| &x == m).map_err(|e| e.to_string()),
+                Msg::Parent(m) => ParentResponse::parse(rd()).map(|x| &x == m).map_err(|e| e.to_string()),
+                Msg::Publisher(m) => PublisherRequest::parse(rd()).map(|x| &x == m).map_err(|e| e.to_string()),
+                Msg::Repo(m) => RepositoryResponse::parse(rd()).map(|x| &x == m).map_err(|e| e.to_string()),
+                Msg::Prov(m) => prov::Message::decode(rd()).map(|x| &x == m).map_err(|e| e.to_string()),
+                Msg::Publ(m) => publ::Message::decode(rd()).map(|x| &x == m).map_err(|e| e.to_string()),
+            }
+        };
+        match piecewise { Ok(true) => {} Ok(false) => return Ok(false), Err(m) => return Err(format!("read in pieces: {m}")) }
         Ok(match self {
             Msg::Child(m) => &ChildRequest::parse(xml).map_err(|e| e.to_string())? == m,
             Msg::Parent(m) => &ParentResponse::parse(xml).map_err(|e| e.to_string())? == m,
@@ -889,6 +942,7 @@ pub fn replay(args: &[String]) {
             s.sample(c.clone());
         }
     }
+    s.set("short_write_sink_refused", json!(SHORT_WRITE_REFUSED.load(std::sync::atomic::Ordering::SeqCst)));
     s.print();
 }
 
